@@ -77,7 +77,7 @@ Proof. split; vm_compute; reflexivity. Qed.
    zone_file::Parser<File>), and its instance with the FULL zone-file parser model of C24.     *)
 From Coq Require Import String Ascii.
 From QV Require Import Model.NameWire Model.ZfReader Model.ZfParser Spec.ZfValidS Model.ZfInc Spec.ZfIncS
-  Proofs.ZfIncP Proofs.ZfIncFullP.
+  Proofs.ZfIncP Proofs.ZfIncFullP Proofs.ZfIncLinesP.
 
 (* For every per-file iterator (next / context get / context set / creation on a file's content),
    file system and depth limit: if the spec's per-file budget k is not exhausted, then iterating
@@ -106,6 +106,30 @@ Theorem c25_iter_depth :
   gexpand Origin Own Ttl Cls Rec SErr Num P F pnext pctx pwith pnew fs size 0 chain p (S k) s =
   ([], GBad _ _ _ _ _ _ p (ITooDeep _ _ n (chain ++ [(p, n)]))).
 Proof. intros. eapply gexpand_too_deep. eassumption. Qed.
+
+(* The first-wave formulation (a file = pre-split logical lines + a pure line parser) is the special
+   case of the iterator formulation whose per-file state is (context, remaining lines) and whose
+   `next` skips the silent lines: the two structural expansions coincide (budget = lines + 1), and the
+   iterator machine on such states yields the first-wave expansion. *)
+Theorem c25_lines_are_iter :
+  forall (Origin Own Ttl Cls Rec SErr L : Type)
+         (pline : ZfFs.ctx Origin Own Ttl Cls -> L -> ZfFs.lres Origin Own Ttl Cls Rec SErr)
+         (fs : path -> option (list (nat * L))) (max_depth : nat) p0 n0 c0 t0,
+  gexpand Origin Own Ttl Cls Rec SErr nat (lstate Origin Own Ttl Cls L) (list (nat * L))
+    (lnext Origin Own Ttl Cls Rec SErr L pline) (lctx Origin Own Ttl Cls L) (lwith Origin Own Ttl Cls L)
+    (lnew Origin Own Ttl Cls L) fs (lsize Origin Own Ttl Cls L) max_depth [] p0 (S (length t0)) (c0, t0) =
+  (fst (expand Origin Own Ttl Cls Rec SErr L pline fs max_depth [] p0 c0 t0),
+   conv_out Origin Own Ttl Cls SErr (snd (expand Origin Own Ttl Cls Rec SErr L pline fs max_depth [] p0 c0 t0))) /\
+  exists f0, forall fuel, f0 <= fuel ->
+    ZfInc.run Origin Own Ttl Cls Rec SErr nat (lstate Origin Own Ttl Cls L) (list (nat * L))
+      (lnext Origin Own Ttl Cls Rec SErr L pline) (lctx Origin Own Ttl Cls L) (lwith Origin Own Ttl Cls L)
+      (lnew Origin Own Ttl Cls L) fs max_depth fuel [(p0, n0, (c0, t0))] =
+    (fst (expand Origin Own Ttl Cls Rec SErr L pline fs max_depth [] p0 c0 t0),
+     gfinal_of _ _ _ _ _ _ (conv_out Origin Own Ttl Cls SErr
+                              (snd (expand Origin Own Ttl Cls Rec SErr L pline fs max_depth [] p0 c0 t0)))).
+Proof.
+  intros. split; [apply gexpand_lines; apply Nat.lt_succ_diag_r|apply lines_iter_run].
+Qed.
 
 (* THE ZONE-FILE PARSER.  [full_run] = the include machine whose per-file parser is the model of
    <zone_file::Parser as Iterator>::next of C24 (Model/ZfParser.v) on the files' octets;
@@ -210,3 +234,4 @@ Print Assumptions c25_iter_depth.
 Print Assumptions c25_full_stack_eq_expand.
 Print Assumptions c25_full_total_valid.
 Print Assumptions c25_full_include_boundary.
+Print Assumptions c25_lines_are_iter.
